@@ -208,6 +208,70 @@ theorem hasPctParen_tail (c : Nat) (t : Str) (h : hasPctParen (c :: t) = false) 
   · rename_i heq; cases heq
 
 
+theorem hasPctParen_cons (c : Nat) (X : Str) :
+    hasPctParen (c :: X) = ((c == 37 && X.head? == some 40) || hasPctParen X) := by
+  rw [hasPctParen.eq_def]
+  split
+  · rename_i heq
+    simp only [List.cons.injEq] at heq
+    obtain ⟨h1, h2⟩ := heq
+    subst h1; subst h2
+    simp
+  · rename_i hd tl hne heq
+    simp only [List.cons.injEq] at heq
+    obtain ⟨h1, h2⟩ := heq
+    subst h1; subst h2
+    by_cases hc : c = 37
+    · subst hc
+      cases X with
+      | nil => simp
+      | cons d Y =>
+        have hd : d ≠ 40 := fun e => hne Y rfl (by rw [e])
+        have : (d == 40) = false := by simpa using hd
+        simp [this, hd]
+    · have : (c == 37) = false := by simpa using hc
+      simp [this]
+  · rename_i heq; cases heq
+
+theorem litChar_head (bs : Bool) (c : Nat) : ∃ t, litChar false bs c = c :: t ∧ (t = [] ∨ (t = [c] ∧ c ≠ 37)) := by
+  unfold litChar
+  by_cases h1 : c = 39
+  · subst h1; exact ⟨[39], by simp, Or.inr ⟨rfl, by decide⟩⟩
+  · by_cases h3 : (bs && c == 92) = true
+    · simp only [Bool.and_eq_true, beq_iff_eq] at h3
+      obtain ⟨_, h3⟩ := h3
+      subst h3
+      refine ⟨[92], ?_, Or.inr ⟨rfl, by decide⟩⟩
+      simp_all
+    · refine ⟨[], ?_, Or.inl rfl⟩
+      simp [h1, h3]
+
+theorem head_flatMap_lit (bs : Bool) (s tail : Str) :
+    (s.flatMap (litChar false bs) ++ tail).head? = (s ++ tail).head? := by
+  cases s with
+  | nil => rfl
+  | cons c t =>
+    obtain ⟨u, hu, _⟩ := litChar_head bs c
+    simp [hu]
+
+/-- quote and backslash doubling neither creates nor destroys an occurrence of `%(` -/
+theorem hasPctParen_lit (bs : Bool) (s tail : Str) :
+    hasPctParen (s.flatMap (litChar false bs) ++ tail) = hasPctParen (s ++ tail) := by
+  induction s with
+  | nil => rfl
+  | cons c t ih =>
+    obtain ⟨u, hu, hcase⟩ := litChar_head bs c
+    simp only [List.flatMap_cons, hu, List.cons_append]
+    rcases hcase with h | ⟨h, hc⟩
+    · subst h
+      simp only [List.nil_append]
+      rw [hasPctParen_cons, hasPctParen_cons, head_flatMap_lit, ih]
+    · subst h
+      have h37 : (c == 37) = false := by simpa using hc
+      simp only [List.cons_append, List.nil_append]
+      rw [hasPctParen_cons, hasPctParen_cons, hasPctParen_cons, ih]
+      simp [h37]
+
 /-! ## date / time bodies -/
 
 /-- characters of ISO date/time text: digits, `-`, `:`, `.`, space -/
